@@ -489,6 +489,7 @@ impl From<qbase::packet::error::Error> for PacketDroppedTrigger {
             | qbase::packet::error::Error::InvalidReservedBits(_, _)
             | qbase::packet::error::Error::IncompleteType(_)
             | qbase::packet::error::Error::IncompleteHeader(_, _)
+            | qbase::packet::error::Error::InvalidHeader(_, _)
             | qbase::packet::error::Error::IncompletePacket(_, _)
             | qbase::packet::error::Error::UnderSampling(..) => Self::Invalid,
             qbase::packet::error::Error::RemoveProtectionFailure
